@@ -187,9 +187,9 @@ PROPS = {
                 "nodes, links) and after close (outputs, JSON); non-trivial = >= 3 steps; distinct = distinct event-log digests",
         "real": ["hugr.build.tracked_dfg.TrackedDfg, hugr.build.dfg.Dfg, graph store"], "stub": [],
         "expected_probes": ["rebind", "untrack", "untracked_index_used", "index_used_twice_in_step"],
-        "technique": "lock-step refinement of two builders under one seeded step sequence, with an index model translating integer arguments; one faulty request (untracked index) may be injected, after which the run fail-stops",
-        "level_text": "The statement is an equivalence between two ways of driving a builder over all step sequences; the check runs both in lock-step under one seeded history and compares the tracked-wire list with an index model after every step and the two HUGRs node for node and link for link. An untracked index is injected as a faulty request in some runs and must raise IndexError.",
-        "level_note": "Trusted: the index model in props/c15.py. Integer arguments are placed only at positions below the operation's output count; negative indices are not generated (Python list semantics vs 'untracked' is ambiguous). After an IndexError the run stops (nothing is promised about the builder afterwards).",
+        "technique": "lock-step refinement of two builders under one seeded step sequence, with an index model translating integer arguments; faulty requests (untracked indices) are injected and must raise IndexError without changing anything; the run then continues",
+        "level_text": "The statement is an equivalence between two ways of driving a builder over all step sequences; the check runs both in lock-step under one seeded history and compares the tracked-wire list with an index model after every step and the two HUGRs node for node and link for link. Untracked indices are injected as faulty requests, must raise IndexError, and must leave both the tracked list and the HUGR untouched.",
+        "level_note": "Trusted: the index model in props/c15.py. Integer arguments are placed only at positions below the operation's output count; negative indices are not generated (Python list semantics vs 'untracked' is ambiguous). A refused command (untracked index) changes nothing on the tree as it stands, so after the IndexError the run continues (fault, then workload): the earlier commands of the same extend() are applied to the plain builder and both builders must still agree.",
     },
     "C16": {
         "engine": "A+B", "level": "exploration",
